@@ -50,6 +50,17 @@ def lines(ctx):
                 out.append(R.run_line(sv, fl, bytes([OP0, IF]) + bytes([NOP]) * (k - 2) + bytes([ENDIF, OP1]), ()))
                 out.append(R.run_line(sv, fl, bytes([OP1]) * 300 + bytes([DROP]) * (k - 1) + bytes([NOP]), ()))
                 out.append(R.run_line(sv, fl, bytes([0x50 if False else OP1]) + bytes([NOP]) * (k - 1) + bytes([0x60, 0x60, DROP]), ()))
+            # which failure wins at the limit: the operation is counted BEFORE it is looked at (disabled opcodes,
+            # OP_CODESEPARATOR under CONST_SCRIPTCODE, undefined opcodes, OP_VERIF ...), executed or not
+            if sv != 3:
+                for nops in (199, 200, 201):
+                    for op in range(0x4f, 0xbb):
+                        if op in (0x63, 0x64, 0x67, 0x68):
+                            continue
+                        for flx in (fl, fl | (1 << 16)):
+                            out.append(R.run_line(sv, flx, bytes([NOP]) * nops + bytes([op]), (b"\x01", b"\x01", b"\x01")))
+                    for op in (0x7e, 0x95, 0xab, 0x65, 0x50, 0x62, 0xb0, 0xba):
+                        out.append(R.run_line(sv, fl | (1 << 16), bytes([OP0, IF]) + bytes([NOP]) * (nops - 1) + bytes([op, ENDIF, OP1]), ()))
             # multisig key counts add to the op count: n NOPs + CHECKMULTISIG(1) + nKeys
             for nk in (0, 1, 19, 20, 21):
                 for nops in (201 - 1 - nk - 1, 201 - 1 - nk, 201 - 1 - nk + 1):
@@ -75,11 +86,20 @@ def lines(ctx):
 
 
 def run(ctx):
+    spend_limits(ctx)
     ls = lines(ctx)
     impl, model, spec, bad = R.three_way(ctx, "limits", ls, shards=16)
     R.histogram(ctx, impl, "outcomes")
     ctx.exhaustive = True
     ctx.notes.append("every limit (520, 1000, 201, 10000, 20, 4/5) x every listed way of reaching it at L-1, L, L+1, L+2 x {BASE, WITNESS_V0, TAPSCRIPT}")
+
+
+def spend_limits(ctx):
+    """the same limits in the scripts of a --tx/--txin spend that the start-up code does not pre-screen
+    (scriptPubKey, scriptSig hand-over): implementation vs model vs consensus validation"""
+    import random
+    from . import c03
+    c03.verdict_compare(ctx, "spend-limits", c03.limit_cases(random.Random(ctx.seed * 10 + 1)))
 
 
 def replay(ctx, case):
